@@ -30,6 +30,8 @@ inductive Tree where
   | node (batch : List Nat) (device : String) (kids : List (String × Tree))
   /-- a lazy stack: the members, keyed by their index written in decimal (`"0"`, `"1"`, …) -/
   | lazy (stackDim : Nat) (members : List (String × Tree))
+  /-- a NonTensorStack: saved as one `meta.json` carrying the (nested) list of payloads and the stack dim -/
+  | ntstack (data : String) (stackDim : Nat)
   /-- a tensorclass instance (tensordict/tensorclass.py:_memmap_): its non-tensor fields (`fields`: what `meta.json` carries besides
       `_type`) and its tensordict, saved under the sub-directory `_tensordict` (`inner = [("_tensordict", node)]`) -/
   | tclass (cls : String) (fields : String) (inner : List (String × Tree))
@@ -66,6 +68,7 @@ def metaEntry : Tree → MetaEntry
   | .node .. => .coll "TensorDict"
   | .lazy .. => .coll "LazyStackedTensorDict"
   | .tclass cls .. => .coll cls
+  | .ntstack .. => .coll "NonTensorStack"
 
 def nodeMeta (batch : List Nat) (device : String) (kids : List (String × Tree)) : Meta :=
   ⟨"TensorDict", batch, device, kids.map fun p => (p.1, metaEntry p.2), none⟩
@@ -76,6 +79,9 @@ def ntMeta (data : String) (batch : List Nat) : Meta := ⟨"NonTensorData", batc
     `_type`, `stack_dim` and — after `fix: load_memmap of a lazy stack ignores the members of a longer
     stack saved there before` — `len`; both numbers are carried in the `batch` field of `Meta`. -/
 def lazyMeta (stackDim n : Nat) : Meta := ⟨"LazyStackedTensorDict", [stackDim, n], "None", [], none⟩
+
+/-- meta.json of a NonTensorStack: `_type`, `stack_dim` and `data` (the list of payloads) -/
+def ntsMeta (data : String) (stackDim : Nat) : Meta := ⟨"NonTensorStack", [stackDim], "None", [], some data⟩
 
 /-- meta.json of a tensorclass (`save_metadata` of tensorclass.py:_memmap_): `_type` = the class, and the non-tensor fields -/
 def tcMeta (cls fields : String) : Meta := ⟨cls, [], "None", [], some fields⟩
@@ -90,6 +96,7 @@ def tasksTree (dir : Path) : Tree → List (Path × File)
   | .lazy sd members =>
     -- `save_metadata` is submitted first, then every member saves itself under `dir/<index>`
     (dir ++ ["meta.json"], .json (lazyMeta sd members.length)) :: tasksKids dir members
+  | .ntstack data sd => [(dir ++ ["meta.json"], .json (ntsMeta data sd))]
   | .tclass cls fields inner =>
     -- `save_metadata`, then `self._tensordict._memmap_(prefix / "_tensordict")`
     (dir ++ ["meta.json"], .json (tcMeta cls fields)) :: tasksKids dir inner
@@ -104,6 +111,7 @@ def tasksKids (dir : Path) : List (String × Tree) → List (Path × File)
   | (k, .node b d ks) :: rest => tasksTree (dir ++ [k]) (.node b d ks) ++ tasksKids dir rest
   | (k, .lazy sd ms) :: rest => tasksTree (dir ++ [k]) (.lazy sd ms) ++ tasksKids dir rest
   | (k, .tclass c f i) :: rest => tasksTree (dir ++ [k]) (.tclass c f i) ++ tasksKids dir rest
+  | (k, .ntstack d sd) :: rest => tasksTree (dir ++ [k]) (.ntstack d sd) ++ tasksKids dir rest
 end
 
 /-- the executor: the submitted tasks complete in the order given -/
@@ -132,6 +140,10 @@ def load : Nat → FS → Path → Option Tree
       else if m.kind = "LazyStackedTensorDict" then
         match m.batch with
         | [sd, n] => (loadMembers fuel fs dir 0 n).map fun ms => Tree.lazy sd ms
+        | _ => none
+      else if m.kind = "NonTensorStack" then
+        match m.batch with
+        | [sd] => (m.payload.map fun d => Tree.ntstack d sd)
         | _ => none
       else if m.kind = "TensorDict" then (loadEntries fuel fs dir m.entries).map fun kids => Tree.node m.batch m.device kids
       else
@@ -252,6 +264,7 @@ def depth : Tree → Nat
   | .node _ _ kids => depthKids kids + 1
   | .lazy _ ms => depthKids ms + 1
   | .tclass _ _ inner => depthKids inner + 1
+  | .ntstack .. => 1
 def depthKids : List (String × Tree) → Nat
   | [] => 0
   | (_, t) :: rest => max (depth t) (depthKids rest)
@@ -265,6 +278,7 @@ def likeTree : Tree → Tree
   | .node b d kids => .node b d (likeKids kids)
   | .lazy sd ms => .lazy sd (likeKids ms)
   | .tclass c f i => .tclass c f (likeKids i)
+  | .ntstack d sd => .ntstack d sd
 def likeKids : List (String × Tree) → List (String × Tree)
   | [] => []
   | (k, t) :: rest => (k, likeTree t) :: likeKids rest
@@ -304,6 +318,7 @@ def PathSafe : Tree → Prop
     ((ms.map entryName) ++ ["meta.json"]).Nodup ∧ (∀ p ∈ ms, ¬ p.1.contains '/') ∧ PathSafeKids ms
   | .tclass _ _ inner =>
     ((inner.map entryName) ++ ["meta.json"]).Nodup ∧ (∀ p ∈ inner, ¬ p.1.contains '/') ∧ PathSafeKids inner
+  | .ntstack .. => True
 def PathSafeKids : List (String × Tree) → Prop
   | [] => True
   | (_, t) :: rest => PathSafe t ∧ PathSafeKids rest
